@@ -2,7 +2,7 @@
    Property theorems only; proofs are in Proofs/HistoryP.v. *)
 From Coq Require Import String.
 From Model Require Import Base Uni Utf8 Notation Inputrc HistFile Editor.
-From Proofs Require Import EditorP BoundsP HistoryP WalkP.
+From Proofs Require Import EditorP BoundsP HistoryP WalkP SearchP.
 Open Scope Z_scope.
 
 (* (c) the search loop of history-search-* only ever returns a stored entry, at its own
@@ -12,6 +12,29 @@ Theorem C09_search_returns_a_matching_entry : forall f h pos fwd regex cline m p
   match_go f h pos fwd regex cline = Some (m, p) ->
   0 <= p < zlen h /\ m = nth (Z.to_nat p) h [] /\ matches regex cline m = true.
 Proof. exact match_go_sound. Qed.
+
+(* (c) at the level of the command (Sources.InsertMatch, what history-search-backward /
+   -forward and the substring searches call): the first search from the line being entered
+   leaves that line, or puts in the buffer a stored entry that matches the search text -
+   the line itself cut at the cursor filed with it - in the documented way *)
+Theorem C09_first_search_puts_a_matching_entry_or_nothing : forall e fwd regex e', hpos e = -1 ->
+  h_insert_match e fwd regex = Ok e' ->
+  exists p,
+    (line e' = line e /\ hpos e' = -1)
+    \/ (exists q, 0 <= q < zlen (hist e) /\ line e' = nth (Z.to_nat q) (hist e) [] /\ hpos e' = zlen (hist e) - q /\
+                  matches regex (search_key (line e) p) (nth (Z.to_nat q) (hist e) []) = true).
+Proof. exact first_search_result. Qed.
+
+(* ... and a further search from a history line still searches for the line that was being
+   entered (t, cut at p): a matching stored entry, or the buffer stays, or - forward, nothing
+   newer matches - undo takes the buffer back *)
+Theorem C09_later_search_puts_a_matching_entry_or_nothing : forall e fwd regex t p r e', hpos e <> -1 -> saved e = (t, p) :: r ->
+  h_insert_match e fwd regex = Ok e' ->
+  (line e' = line e /\ (hpos e' = hpos e \/ hpos e' = -1))
+  \/ (exists q, 0 <= q < zlen (hist e) /\ line e' = nth (Z.to_nat q) (hist e) [] /\ hpos e' = zlen (hist e) - q /\
+                matches regex (search_key t p) (nth (Z.to_nat q) (hist e) []) = true)
+  \/ (fwd = true /\ -1 < hpos e /\ h_undo (set_hist e (-1) (hcpos e)) = Ok e').
+Proof. exact later_search_result. Qed.
 
 Theorem C09_prefix_match_is_a_prefix : forall cline entry,
   matches false cline entry = true -> has_prefix cline (utf8_encode entry) = true.
